@@ -131,7 +131,12 @@ def polys(rng, n):
 
 def steff(rng, n):
     fixed = {"cos": 0.7390851332151607, "expm": 0.5671432904097838, "heron": 2 ** 0.5, "sinhalf": 1.4987011335178482,
-             "affine": 4.0, "quad": (3 - 5 ** 0.5) / 2}
+             "affine": 4.0, "quad": (3 - 5 ** 0.5) / 2, "logshift": 1.1461932206205825, "sin09": None}
+    # fixed point of 0.9 sin x + 0.3 by plain iteration
+    x = 1.0
+    for _ in range(3000):
+        x = 0.9 * math.sin(x) + 0.3
+    fixed["sin09"] = x
     cases = []
     for k in range(n):
         g = rng.choice(sorted(fixed))
@@ -139,8 +144,18 @@ def steff(rng, n):
         start = fixed[g] + rng.uniform(-0.3, 0.3)
         if rng.random() < 0.1:
             start = fixed[g]
-        cases.append({"method": "steffensen", "dim": 1, "g": g, "start": [fp(start)], "tol": fp(tol), "n_max": 200, "budget": 0,
-                      "regular": True, "singular": False})
+        cases.append({"method": "steffensen", "dim": 1, "g": g, "gp": [fp(0.0), fp(0.0)], "start": [fp(start)], "tol": fp(tol), "n_max": 200,
+                      "budget": 0, "regular": True, "singular": False})
+    # affine maps s x + c: Aitken's formula is exact on them, so the first step lands within rounding of the fixed
+    # point from any start and the following passes work on differences of a few ulps
+    for k in range(n):
+        slope = rng.choice([0.5, 0.5, 0.75, 0.9, 0.25, -0.5, -0.9, 0.99, rng.uniform(-0.95, 0.95)])
+        fx = rng.choice([2.0, 1.0, -3.0, rng.uniform(-5, 5)])
+        icpt = fx * (1 - slope)
+        start = fx + rng.uniform(-3, 3)
+        tol = 10.0 ** (-rng.uniform(3, 13))
+        cases.append({"method": "steffensen", "dim": 1, "g": "affp", "gp": [fp(slope), fp(icpt)], "start": [fp(start)], "tol": fp(tol),
+                      "n_max": 200, "budget": 0, "regular": True, "singular": False})
     return cases
 
 
